@@ -187,6 +187,10 @@ func runCheck(p *Prop, tier string, seed int64) int {
 		cfg.ArbWide = rs.ArbWide
 		cfg.ArbNarrow = rs.ArbNarrow
 		cfg.Witnesses = true
+		cfg.MaxPathsPerHarness = 40000
+		if tier == "thorough" {
+			cfg.MaxPathsPerHarness = 120000
+		}
 		if rs.Unwind > 0 {
 			cfg.Unwind = rs.Unwind
 		}
@@ -280,7 +284,11 @@ func runCheck(p *Prop, tier string, seed int64) int {
 			if r.Unknown > 0 {
 				inconclusive = append(inconclusive, fmt.Sprintf("%s: %d solver answers unknown/timeout", n, r.Unknown))
 			}
-			if r.Truncated {
+			if r.Truncated && isFamilyHarness(n) {
+				// a package of the seeded corpus families whose harness outgrows the per-harness
+				// budget is left out of this run's claim (as if the family had not drawn it)
+				c.Info = append(c.Info, fmt.Sprintf("%s: per-harness path budget (%d) exceeded after %d paths: the rest of this harness is NOT explored and the package is outside this run's claim", n, cfg.MaxPathsPerHarness, r.Paths))
+			} else if r.Truncated {
 				inconclusive = append(inconclusive, n+": path budget exceeded")
 			}
 			if r.Asserts > 0 && r.Outcomes["done"] > 0 {
@@ -676,4 +684,16 @@ func replayFile(p *Prop, file, tier string, seed int64) int {
 	}
 	fmt.Printf("replay did not reproduce: %s\n", why)
 	return 0
+}
+
+// isFamilyHarness: the harness belongs to a package of the seeded corpus
+// families (s_, r_, a_, p_, b_ and pairs built from them), not to a fixture or
+// to goag's own packages.
+func isFamilyHarness(h string) bool {
+	for _, pre := range []string{"/pkgs/s_", "/pkgs/r_", "/pkgs/a_", "/pkgs/p_", "/pkgs/b_", "/pairs/s_", "/pairs/p_", "/pairs/b_"} {
+		if strings.Contains(h, pre) {
+			return true
+		}
+	}
+	return false
 }
